@@ -641,6 +641,22 @@ func (pe *PEngine) enumerate(fn *ssa.Function, isEntry bool) []*pci {
 						add(&pci{kind: "shift", ins: ins, desc: descVN(pf.get(x.Y), 0), goals: []*lin{d}, gdesc: []string{"shift count >= 0"}})
 					}
 				}
+			case *ssa.Convert:
+				if !pe.EnumConv || !isIntType(x.Type()) || !isIntType(x.X.Type()) {
+					continue
+				}
+				slo, shi, ok1 := intTypeRange(x.X.Type())
+				tlo, thi, ok2 := intTypeRange(x.Type())
+				if !ok1 || !ok2 || (slo.Cmp(tlo) >= 0 && shi.Cmp(thi) <= 0) {
+					continue // widening
+				}
+				src := pf.get(x.X)
+				if convPreserves(src, x.Type()) {
+					continue // syntactic range (masking, lengths, byte loads) already fits
+				}
+				l := pf.linOf(src)
+				add(&pci{kind: "conv", ins: ins, desc: typeKey(x.X.Type()) + "->" + typeKey(x.Type()) + " " + descVN(src, 0),
+					goals: []*lin{l.sub(linConst(tlo)), linConst(thi).sub(l)}, gdesc: []string{"value >= target minimum", "value <= target maximum"}})
 			case *ssa.TypeAssert:
 				if !x.CommaOk {
 					add(&pci{kind: "typeassert", ins: ins, desc: typeKey(x.AssertedType)})
